@@ -80,6 +80,9 @@ pub fn profile_name() -> &'static str {
 impl Check {
     pub fn new(prop: &'static str, tier: Tier, level: &'static str) -> Self {
         crate::util::install_quiet_panic_hook();
+        // Driver-level checks of functional properties: a library panic on a valid sequence is a
+        // violation. C07 (clean panics allowed) handles panics itself.
+        crate::util::set_panic_prop(if prop == "C07" { None } else { Some(prop) });
         Check {
             prop,
             tier,
